@@ -96,6 +96,30 @@ def check_containers(vs, probe):
     return out
 
 
+def check_moved(v1, v2, how):
+    """A point is hashed, then moved (vector changed in place or reassigned), then compared with a fresh point at the new place."""
+    out = []
+    a = I(v1)
+    h0 = hash(a)
+    in_set = {a}
+    if how == "in_place":
+        for i, w in enumerate(v2):
+            a.vector[i] = w
+    elif how == "reassign":
+        a.vector = list(v2)
+    else:
+        other = I(v2)
+        a.sync(other)
+    b = I(v2)
+    if not (a == b and b == a):
+        out.append(("C20:moved:eq", "point moved %s from %r to %r is not equal to a fresh point there" % (how, v1, v2)))
+    if hash(a) != hash(b):
+        out.append(("C20:moved:hash-stale:%s" % how, "point hashed at %r, moved %s to %r: hash differs from a fresh point with the identical vector" % (v1, how, v2)))
+    if len(set([a, b])) != 1:
+        out.append(("C20:moved:set-keeps-repeat", "set([moved, fresh]) at %r has %d members" % (v2, len(set([a, b])))))
+    return out
+
+
 class ScriptExhausted(Exception):
     pass
 
@@ -183,6 +207,18 @@ def _shard(shard, col: Collector):
                             for key, msg in check_eq(base, b):
                                 col.violation(key, "eq", msg, {"a": base, "b": b})
         col.sample({"kind": "eq", "a": [first] * n, "b": [first] * (n - 1) + [first + 2e-10], "expected_equal": False}, 1)
+    elif kind == "moved":
+        allv = list(itertools.product(LAT, repeat=2)) + [(v,) for v in LAT]
+        for v1 in allv:
+            for v2 in allv:
+                if len(v1) != len(v2) or v1 == v2:
+                    continue
+                for how in ("in_place", "reassign", "sync"):
+                    col.case()
+                    col.nontrivial(("moved", v1, v2, how))
+                    for key, msg in check_moved(v1, v2, how):
+                        col.violation(key, "moved", msg, {"v1": v1, "v2": v2, "how": how})
+        col.sample({"kind": "moved-point", "from": [-1.0, 0.0], "to": [1.0, 0.0], "how": "in_place"}, 1)
     elif kind == "big":
         # large-magnitude coordinates: absolute 1e-10 is the rule, whatever the magnitude (no relative tolerance)
         bigs = (1e5, 250000.0, -1e8, 3.0e12)
@@ -232,6 +268,8 @@ def replay(sub, case):
         return check_eq(t(case["a"]), t(case["b"]))
     if sub == "cont":
         return check_containers([t(v) for v in case["vs"]], t(case["probe"]))
+    if sub == "moved":
+        return check_moved(t(case["v1"]), t(case["v2"]), case["how"])
     if sub == "gen":
         return check_generate([(t(a), t(b)) for a, b in case["script"]], case["n"])
     raise ValueError(sub)
@@ -242,7 +280,7 @@ def run(tier, seed):
     for n in (1, 2, 3, 4):
         for first in LAT:
             shards.append(("eq", n, first))
-    shards += [("cont", 1), ("cont", 2), ("big",)]
+    shards += [("cont", 1), ("cont", 2), ("big",), ("moved",)]
     lat2 = LAT2
     firsts = [(a, b) for a in lat2 for b in lat2]
     for npop in (2, 3, 4):
